@@ -20,7 +20,7 @@ import (
 
 const (
 	findingDup     = "c22-dup-equal-sources"
-	lookupBudget   = 200000 // an acyclic universe of <= 9 specs needs < 2^9 lookups
+	lookupSlack    = 2000 // lookups allowed beyond 20x what the reference traversal needs
 	determinismRep = 6
 )
 
@@ -32,7 +32,7 @@ type lookupOverrun struct{}
 
 // pureExpand runs types.DoExpandSpec with a lookup function over store (fresh deep copy per
 // lookup, like Keeper.GetSpec). nonTerminating is set when the lookup budget was exhausted.
-func pureExpand(store map[string]spectypes.Spec, root spectypes.Spec) (out spectypes.Spec, details string, err error, nonTerminating bool) {
+func pureExpand(store map[string]spectypes.Spec, root spectypes.Spec, lookupBudget int) (out spectypes.Spec, details string, err error, nonTerminating bool) {
 	lookups := 0
 	get := func(_ sdk.Context, index string) (spectypes.Spec, bool) {
 		lookups++
@@ -178,7 +178,8 @@ func checkExpansion(t fataler, c *ev.Collector, env *specEnv, store map[string]s
 
 	// -- terminates -----------------------------------------------------------------------
 	c.Clause("terminates")
-	first, _, err, overrun := pureExpand(store, root)
+	lookupBudget := lookupSlack + 20*countImportVisits(store, root, 100000)
+	first, _, err, overrun := pureExpand(store, root, lookupBudget)
 	if overrun {
 		t.Fatalf("%s", ev.Violation("C22", "expansion does not terminate: more than %d spec lookups for a universe of %d specs (cycle=%v)%s", lookupBudget, len(store), facts.Cycle, input()))
 	}
@@ -205,7 +206,7 @@ func checkExpansion(t fataler, c *ev.Collector, env *specEnv, store map[string]s
 		if i%2 == 1 {
 			again, err2 = env.k.ExpandSpec(ctx, cloneSpec(root))
 		} else {
-			again, _, err2, _ = pureExpand(store, root)
+			again, _, err2, _ = pureExpand(store, root, lookupBudget)
 		}
 		if (err == nil) != (err2 == nil) {
 			t.Fatalf("%s", ev.Violation("C22", "expansion of %s is not deterministic: run 0 error=%v, run %d error=%v%s", root.Index, err, i, err2, input()))
@@ -532,6 +533,11 @@ func setupC22() {
 func TestC22(t *testing.T) {
 	setupC22()
 	t.Run("real-specs", func(t *testing.T) { realSpecsC22(t) })
+	if !ev.Excluded(findingDup) {
+		// plain regression test of the (former) finding; when it is listed as known the driver
+		// replays it separately as the witness
+		t.Run("regression-dup-equal-sources", TestC22Known_dupEqualSources)
+	}
 	if t.Failed() {
 		return
 	}
@@ -566,6 +572,30 @@ func TestC22Known_dupEqualSources(t *testing.T) {
 	}
 	if dups := duplicates(out); len(dups) > 0 {
 		t.Fatalf("%s", ev.Violation("C22", "expanded spec A contains duplicates %v: B and C both define API a in %s, A imports both and defines the collection without a\nresult: %s", dups, keyString(key), specJSON(out)))
+	}
+	// same shape with an extension, a parse directive and a verification shared by B and C (their
+	// APIs differ): Keeper.ValidateSpec accepts the proposal, the expansion must still be duplicate-free
+	mk2 := func(idx string, imports []string, api string, shared bool) spectypes.Spec {
+		col := &spectypes.ApiCollection{Enabled: true, CollectionData: key, Apis: []*spectypes.Api{{Enabled: true, Name: api, ComputeUnits: 10}}}
+		if shared {
+			col.Extensions = []*spectypes.Extension{{Name: "archive", CuMultiplier: 5, Rule: &spectypes.Rule{Block: 127}}}
+			col.ParseDirectives = []*spectypes.ParseDirective{{FunctionTag: spectypes.FUNCTION_TAG_GET_BLOCKNUM, FunctionTemplate: "x", ApiName: "shared"}}
+			col.Verifications = []*spectypes.Verification{{Name: "chain-id", ParseDirective: &spectypes.ParseDirective{FunctionTag: spectypes.FUNCTION_TAG_VERIFICATION, ApiName: "shared"}, Values: []*spectypes.ParseValue{{ExpectedValue: "0x1"}}}}
+		}
+		return cloneSpec(spectypes.Spec{Index: idx, Name: "x", Enabled: true, ReliabilityThreshold: 1, BlockDistanceForFinalizedData: 1, BlocksInFinalizationProof: 1,
+			AverageBlockTime: 1000, AllowedBlockLagForQosSync: 2, MinStakeProvider: sdk.NewCoin(bondDenom, sdk.NewInt(1000)), Shares: 1, Imports: imports, ApiCollections: []*spectypes.ApiCollection{col}})
+	}
+	ctx2 := env.fresh()
+	env.k.SetSpec(ctx2, mk2("B", nil, "b_api", true))
+	env.k.SetSpec(ctx2, mk2("C", nil, "c_api", true))
+	root2 := mk2("A", []string{"B", "C"}, "a_api", false)
+	out2, err := env.k.ExpandSpec(ctx2, cloneSpec(root2))
+	if err != nil {
+		return
+	}
+	if dups := duplicates(out2); len(dups) > 0 {
+		_, vErr := env.k.ValidateSpec(ctx2, cloneSpec(root2))
+		t.Fatalf("%s", ev.Violation("C22", "expanded spec A contains duplicates %v (Keeper.ValidateSpec error: %v): B and C define the same extension, parse directive and verification in %s, A imports both and defines the collection without them\nresult: %s", dups, vErr, keyString(key), specJSON(out2)))
 	}
 }
 
